@@ -33,14 +33,19 @@ pub enum Family {
     V6Mapped,
     /// dual, and the v6 address is IPv4-mapped
     DualMapped,
+    /// v4-only, two addresses per host (both serve)
+    V4Two,
 }
 
 impl Family {
     pub fn has_v4(self) -> bool {
-        matches!(self, Family::V4 | Family::Dual | Family::DualMapped)
+        matches!(self, Family::V4 | Family::Dual | Family::DualMapped | Family::V4Two)
     }
     pub fn has_v6(self) -> bool {
-        !matches!(self, Family::V4)
+        !matches!(self, Family::V4 | Family::V4Two)
+    }
+    pub fn two(self) -> bool {
+        matches!(self, Family::V4Two)
     }
     pub fn mapped(self) -> bool {
         matches!(self, Family::V6Mapped | Family::DualMapped)
@@ -166,6 +171,9 @@ fn addr_recs(owner: &DomainName, fam: Family, level: usize, k: usize, ttl: u32) 
     if fam.has_v4() {
         v.push(rec(owner, RecordTypeWithData::A { address: v4(level, k) }, ttl));
     }
+    if fam.two() {
+        v.push(rec(owner, RecordTypeWithData::A { address: v4(level, k + 100) }, ttl));
+    }
     if fam.has_v6() {
         v.push(rec(owner, RecordTypeWithData::AAAA { address: v6(fam, level, k) }, ttl));
     }
@@ -176,6 +184,9 @@ fn addrs(fam: Family, level: usize, k: usize) -> Vec<IpAddr> {
     let mut v = Vec::new();
     if fam.has_v4() {
         v.push(IpAddr::V4(v4(level, k)));
+    }
+    if fam.two() {
+        v.push(IpAddr::V4(v4(level, k + 100)));
     }
     if fam.has_v6() {
         v.push(IpAddr::V6(v6(fam, level, k)));
